@@ -326,6 +326,17 @@ func (g *Gen) gLog() {
 	for i := 0; i < n; i++ {
 		g.A.Push(g.R.Operand())
 	}
+	if g.R.Chance(30) {
+		// data range that starts inside the last word of memory and ends beyond it (memory grows by the instruction itself)
+		g.A.Push(g.R.U256())
+		g.op(MSIZE)
+		g.op(MSTORE)
+		g.A.PushU(uint64(1 + g.R.Intn(100))).PushU(uint64(1 + g.R.Intn(32)))
+		g.op(MSIZE)
+		g.op(SUB)
+		g.op(byte(LOG0 + n))
+		return
+	}
 	g.A.PushU(g.smallLen()).PushU(g.smallOff())
 	g.op(byte(LOG0 + n))
 }
